@@ -135,6 +135,11 @@ func c14Cases(tier string) []chainCase {
 			{"multi:A1+A2!order", []string{"A1", "A2"}, false},
 			{"multi:A1+A2!missing", []string{"A1", "A2"}, false},
 			{"multi:A1+A2!dup", []string{"A1", "A2"}, false},
+			{"multi:A1+A2!empty-first", []string{"A1", "A2"}, false},
+			{"multi:A1+A2!empty-last", []string{"A1", "A2"}, false},
+			{"multi:A1+A2!empty-all", []string{"A1", "A2"}, false},
+			{"multi:A1+A2!nil-all", []string{"A1", "A2"}, false},
+			{"multi:A1+A2!stranger-last", []string{"A1", "A2"}, false},
 			{"multi:A2+A1", []string{"A1", "A2"}, false}, // other key order = other account
 			{"multi:A1", []string{"A1"}, true},
 			{"multi:", nil, false}, // a key with no members: nobody can have signed
